@@ -3,6 +3,7 @@ package main
 import (
 	"bytes"
 	"fmt"
+	"strconv"
 	"strings"
 	"time"
 
@@ -187,6 +188,30 @@ func (r *runner) scenario(si int, st mbt.Step) bool {
 			b.Data = &types.Data{Txs: types.Txs{types.Tx("not the voted body"), types.Tx("at all")}}
 		})
 	default:
+		if strings.HasPrefix(name, "block-absurd-length-") {
+			// the genuine block with ONE length prefix of a string / byte-slice field (chain id, a 20-byte hash, a 64-byte
+			// signature) replaced by a 9-byte varint close to MaxInt64: offset + length overflows, the size limit must hold
+			k, _ := strconv.Atoi(strings.TrimPrefix(name, "block-absurd-length-"))
+			d := blk(func(b *types.Block) {})
+			var cand []int
+			for p := 0; p+2 < len(d); p++ {
+				if d[p] == 0x01 && (d[p+1] == 0x14 || d[p+1] == 0x40 || d[p+1] == byte(len(csim.ChainID))) && p+2+int(d[p+1]) <= len(d) {
+					cand = append(cand, p)
+				}
+			}
+			if len(cand) == 0 {
+				r.fail(si, action, "error", false, "", "no length prefix found in the block encoding", nil, nil)
+				return false
+			}
+			p := cand[(k*7)%len(cand)]
+			huge := [][]byte{
+				{0x08, 0x7f, 0xff, 0xff, 0xff, 0xff, 0xff, 0xff, 0xff},
+				{0x08, 0x7f, 0xff, 0xff, 0xff, 0xff, 0xff, 0xff, 0xf0},
+				{0x08, 0x40, 0x00, 0x00, 0x00, 0x00, 0x00, 0x00, 0x00},
+			}[k%3]
+			data = append(append(append([]byte(nil), d[:p]...), huge...), d[p+2:]...)
+			break
+		}
 		r.fail(si, action, "error", false, "", "unknown scenario", nil, nil)
 		return false
 	}
